@@ -46,6 +46,9 @@ def record_lz(item):
         m = mg.LZCompressionVectorizer(**kw)
         M = m.fit_transform(train)
         m2 = mg.LZCompressionVectorizer(**kw)
+        if item.get("reuse"):        # the object has a past: fitted on other strings and used, then re-fitted (nothing may leak)
+            m2.fit(["zzyzzy", "yz"])
+            m2.transform(["zy", ""])
         r = m2.fit(train)
         out["fit_returns_self"] = r is m2
         T1 = m2.transform(train)
@@ -94,6 +97,9 @@ def record_bpe(item):
             ft = m.fit_transform(train)
             m2 = mg.BytePairEncodingVectorizer(max_vocab_size=cfg["vocab"], min_token_occurrence=cfg["minocc"], return_type=rt,
                                                max_char_code=cfg["mcc"])
+            if item.get("reuse"):    # the object has a past: fitted on other strings and used, then re-fitted (nothing may leak)
+                m2.fit(["xyxyxyxy", "yxyx"])
+                m2.transform(["xyxy", ""])
             r = m2.fit(train)
             if r is not m2:
                 out["fit_returns_self"] = False
